@@ -203,7 +203,7 @@ def cut_work(arg):
 def connect_work(arg):
     timeout, with_cb, frame, set_when = arg
     viols = {}
-    wit = {"part": "connect", "timeout": timeout, "callback": with_cb, "frame": frame}
+    wit = {"part": "connect", "timeout": timeout, "callback": with_cb, "frame": frame, "set_when": set_when}
 
     def flag(oracle, sig, msg):
         viols.setdefault((oracle, sig), [0, wit, msg])[0] += 1
@@ -217,7 +217,9 @@ def connect_work(arg):
                 cl.setConnectionTimeout(timeout)
             except Exception as e:
                 exc.append(e)
-        w.client_connect(0, before_connect=before)
+        w.client_connect(0, before_connect=before if set_when == "before" else None)
+        if set_when == "during":
+            before(w.clients[0].client)   # the attempt is already under way
         t_hello = w.vt.now
         ce = w.clients[0]
         n = int((timeout + 1.0) / frame)
@@ -225,7 +227,7 @@ def connect_work(arg):
             w.tick()
         st = ce.conn.status
         if exc:
-            flag("setter-raises", "setConnectionTimeout before connect raises %s" % type(exc[0]).__name__, repr(exc[0]))
+            flag("setter-raises", "setConnectionTimeout %s connect raises %s" % ("before" if set_when == "before" else "right after", type(exc[0]).__name__), repr(exc[0]))
         if st != ConnectionStatus.DISCONNECTED:
             flag("connect-timeout", "an unanswered connect attempt does not end DISCONNECTED (%s a connect callback)" % ("with" if with_cb else "without"),
                  "status %s %.2f s after the hello, configured timeout %.2f" % (st, w.vt.now - t_hello, timeout))
@@ -249,9 +251,10 @@ VALUES = {"setKeepAliveInterval": 0.5, "setConnectionTimeout": 0.75, "setMessage
 
 
 def client_setter_work(arg):
-    before, after, frame = arg
+    before, after, frame = arg[:3]
+    during = arg[3] if len(arg) > 3 else ()
     viols = {}
-    wit = {"part": "client-setters", "before_connect": list(before), "after_connect": list(after)}
+    wit = {"part": "client-setters", "before_connect": list(before), "during_handshake": list(during), "after_connect": list(after)}
 
     def flag(oracle, sig, msg):
         viols.setdefault((oracle, sig), [0, wit, msg])[0] += 1
@@ -264,13 +267,19 @@ def client_setter_work(arg):
                 except Exception as e:
                     flag("setter-raises", "%s before connect raises %s" % (name, type(e).__name__), repr(e))
         ce = w.client_connect(0, before_connect=pre)
+        # after connect() but before the handshake has completed (status CONNECTING)
+        for name in during:
+            try:
+                getattr(ce.client, name)(VALUES[name])
+            except Exception as e:
+                flag("setter-raises", "%s during the handshake raises %s" % (name, type(e).__name__), repr(e))
         w.run_until_connected(limit=int(3.0 / frame))
         for name in after:
             try:
                 getattr(ce.client, name)(VALUES[name])
             except Exception as e:
                 flag("setter-raises", "%s after connect raises %s" % (name, type(e).__name__), repr(e))
-        applied = set(before) | set(after)
+        applied = set(before) | set(after) | set(during)
         w.run(int(1.2 / frame))
         t0 = w.tickno - int(0.7 / frame)
         g = gaps(w, t0)["c"]
@@ -280,7 +289,7 @@ def client_setter_work(arg):
         g = gaps(w, t0)["c"]
         lo, hi = ka - EPS, ka + max(frame, send_tick(frame)) + EPS
         if not g or not (lo <= max(g) <= hi):
-            when = "before connect" if "setKeepAliveInterval" in before else ("after connect" if "setKeepAliveInterval" in after else "never (default)")
+            when = "before connect" if "setKeepAliveInterval" in before else ("after connect" if "setKeepAliveInterval" in after else ("during the handshake" if "setKeepAliveInterval" in during else "never (default)"))
             flag("setter-effect", "setKeepAliveInterval called %s has no effect on the client's keep-alive period" % when,
                  "configured %.2f, observed idle gaps up to %s" % (ka, ("%.4f" % max(g)) if g else "none"))
         # message timeout: an unretried send over a cut link fails after the configured timeout
@@ -295,13 +304,13 @@ def client_setter_work(arg):
         else:
             late = res[0][0] - t_send
             if not (mt - EPS <= late <= mt + 3 * frame + send_tick(frame) + EPS):
-                when = "before connect" if "setMessageTimeout" in before else ("after connect" if "setMessageTimeout" in after else "never (default)")
+                when = "before connect" if "setMessageTimeout" in before else ("after connect" if "setMessageTimeout" in after else ("during the handshake" if "setMessageTimeout" in during else "never (default)"))
                 flag("setter-effect", "setMessageTimeout called %s has no effect" % when, "configured %.2f, callback(False) after %.4f s" % (mt, late))
         if w.exceptions:
             flag("exception", "exception after calling setters", repr(w.exceptions[:2]))
     finally:
         w.close()
-    return (tuple(before), tuple(after)), viols
+    return (tuple(before), tuple(during), tuple(after)), viols
 
 
 def server_setter_work(arg):
@@ -423,7 +432,7 @@ def run(tier, seed):
     for r in res:
         fold(r[1])
     # connect timeout
-    con_jobs = [(t, cb, fr, "before") for t in (0.25, 2.0, 0.75) for cb in (True, False) for fr in (1.0 / 64, 1.0 / 60)]
+    con_jobs = [(t, cb, fr, when) for t in (0.25, 2.0, 0.75) for cb in (True, False) for fr in (1.0 / 64, 1.0 / 60) for when in ("before", "during")]
     res = core.pmap("checks.c12", "connect_work", con_jobs)
     for r in res:
         fold(r[1])
@@ -431,10 +440,11 @@ def run(tier, seed):
     cs_jobs = []
     for n in range(0, 4):
         for subset in itertools.permutations(CLIENT_SETTERS, n):
-            for mask in range(1 << n):
-                before = tuple(s for i, s in enumerate(subset) if mask >> i & 1)
-                after = tuple(s for i, s in enumerate(subset) if not mask >> i & 1)
-                cs_jobs.append((before, after, 1.0 / 64))
+            for phases in itertools.product((0, 1, 2), repeat=n):
+                before = tuple(s for i, s in enumerate(subset) if phases[i] == 0)
+                during = tuple(s for i, s in enumerate(subset) if phases[i] == 1)
+                after = tuple(s for i, s in enumerate(subset) if phases[i] == 2)
+                cs_jobs.append((before, after, 1.0 / 64, during))
     cs_jobs = sorted(set(cs_jobs))
     res = core.pmap("checks.c12", "client_setter_work", cs_jobs)
     for r in res:
@@ -454,7 +464,7 @@ def run(tier, seed):
         "client_setter_cases": len(cs_jobs), "server_setter_cases": len(ss_jobs),
         "evaluations": n_exec, "distinct_nontrivial": len(closed) + len(cut_out) + len(st.outcomes) + len(cs_jobs),
         "rule": "idle: canonical state = ages + sequence numbers relative to the peer's window, per tick; a repeated state closes the graph (dyadic frames), otherwise a horizon is reported; "
-                "jitter: all 2^10 sequences of 1x/2x frames; cut: every tick phase of one keep-alive period x {both, c2s, s2c}; setters: every subset x order x before/after split",
+                "jitter: all 2^10 sequences of 1x/2x frames; cut: every tick phase of one keep-alive period x {both, c2s, s2c}; setters: every subset x order x before / during-the-handshake / after split",
         "exhaustive": True,
         "samples": [{"idle": closed[:2]}, {"cut": {"keep_alive": 0.1, "timeout": 1.0, "frame": 0.015625, "phase": 3, "direction": "c2s"}},
                     {"client_setters": {"before": ["setMessageTimeout"], "after": ["setKeepAliveInterval", "setConnectionTimeout"]}}],
@@ -472,9 +482,9 @@ def replay(witness):
     elif part == "cut":
         v = cut_work((witness["keep_alive"], witness["connection_timeout"], witness["frame"], witness["phase"], witness["direction"]))[1]
     elif part == "connect":
-        v = connect_work((witness["timeout"], witness["callback"], witness["frame"], "before"))[1]
+        v = connect_work((witness["timeout"], witness["callback"], witness["frame"], witness.get("set_when", "before")))[1]
     elif part == "client-setters":
-        v = client_setter_work((tuple(witness["before_connect"]), tuple(witness["after_connect"]), 1.0 / 64))[1]
+        v = client_setter_work((tuple(witness["before_connect"]), tuple(witness["after_connect"]), 1.0 / 64, tuple(witness.get("during_handshake", ()))))[1]
     elif part == "server-setters":
         v = server_setter_work((tuple(witness["order"]), 1.0 / 64))[1]
     elif part == "jitter":
